@@ -375,7 +375,9 @@ where
     {
         self.filtered_indices.clear();
         *self.original_len = 0;
-        self.append_filter(values, f).map(|values| VectorDiff::Reset { values })
+        // A reset must always be forwarded, even if none of the new values
+        // pass the filter: the previous (filtered) values are gone.
+        Some(VectorDiff::Reset { values: self.append_filter(values, f).unwrap_or_default() })
     }
 
     fn handle_reset_filter_map<U, F>(
@@ -389,7 +391,9 @@ where
     {
         self.filtered_indices.clear();
         *self.original_len = 0;
-        self.append_filter_map(values, f).map(|values| VectorDiff::Reset { values })
+        // A reset must always be forwarded, even if none of the new values
+        // pass the filter: the previous (filtered) values are gone.
+        Some(VectorDiff::Reset { values: self.append_filter_map(values, f).unwrap_or_default() })
     }
 
     fn handle_diff_filter<F>(&mut self, f: &F, cx: &mut task::Context<'_>) -> Poll<Option<S::Item>>
